@@ -156,7 +156,7 @@ def mk_function_nsp(node, tag="inner", **over):
              flow_ctrl_return_expr=ast.Name(id=Hole("retflag", "ident", fresh=True)),
              zero_arg_super_used=False, flow_ctrl_return_used=False, return_node_bodies=[],
              inner_nonlocal_names=set(), nonlocal_parameters=set(), nonlocal_dict_expr=ast.Name(id=Hole("nld", "ident", fresh=True)),
-             is_method=False)
+             is_method=False, first_parameter=None)
     f.update(over)
     return CL.mk_nsp(tag, kinds=("function",), **f)
 
@@ -175,13 +175,21 @@ def symbolic_arguments():
         defaults=[CL.seg("DF", lambda t: CL.src(t))])
 
 
-def g_functiondef(R, tier):
+_SUPER_SRC = ("class A:\n    def v(self):\n        return 1\nclass B(A):\n    def run(self):\n        n = 0\n        while super().v() > n:\n            n += 1\n        return n\n"
+              "    def po(me, /, k=2):\n        while super().v() > k:\n            pass\n        return super().v() * k\nr = (B().run(), B().po())\n")
+
+
+def g_functiondef(R, tier, only=None):
+    """only='first-parameter': just the clause zero-argument super() depends on (C12)"""
     pn = CL.pn()
     base = "pending_nodes.PendingFunctionDef"
 
     def run(c):
         m = Machine(stubs=stubs())
         args = symbolic_arguments()
+        # which run holds the first positional parameter is decided per path
+        c.branch(sym.zint(args.posonlyargs[0].length) > 0)
+        c.branch(sym.zint(args.args[0].length) > 0)
         node = ast.FunctionDef(name="f", args=args, body=[], decorator_list=[CL.seg("DEC", lambda t: CL.src(t))],
                                returns=CL.src("returns"), lineno=7, col_offset=0)
         inner = mk_function_nsp(node)
@@ -207,14 +215,18 @@ def g_functiondef(R, tier):
         try:
             a = node.args
             # --- argument copy: names in place, annotations gone, structure kept (C11 shares this)
+            from suites.c13 import _provably_zero as _pz
             def names(lst):
                 out = []
                 for x in lst:
+                    if isinstance(x, Seg) and _pz(c, x.length):
+                        continue  # an empty run is no parameter
                     out.append(("seg", str(x.length), tagstr(x.items[0].arg.tag), getattr(x.items[0], "annotation", None) is None) if isinstance(x, Seg)
                                else ("one", tagstr(x.arg.tag), getattr(x, "annotation", None) is None))
                 return out
             def src_names(lst):
-                return [("seg", str(x.length), tagstr(x.items[0].arg.tag), True) if isinstance(x, Seg) else ("one", tagstr(x.arg.tag), True) for x in lst]
+                return [("seg", str(x.length), tagstr(x.items[0].arg.tag), True) if isinstance(x, Seg) else ("one", tagstr(x.arg.tag), True) for x in lst
+                        if not (isinstance(x, Seg) and _pz(c, x.length))]
             okn = (names(ca.posonlyargs) == src_names(a.posonlyargs) and names(ca.args) == src_names(a.args)
                    and names(ca.kwonlyargs) == src_names(a.kwonlyargs))
             okv = (ca.vararg is None) == (a.vararg is None) and (ca.kwarg is None) == (a.kwarg is None)
@@ -222,11 +234,35 @@ def g_functiondef(R, tier):
                 okv = okv and ca.vararg.arg is a.vararg.arg and getattr(ca.vararg, "annotation", None) is None
             if a.kwarg is not None:
                 okv = okv and ca.kwarg.arg is a.kwarg.arg and getattr(ca.kwarg, "annotation", None) is None
-            R.check(f"{base}.__init__/parameters-copied-in-place-without-annotations/{sig}", okn and okv,
-                    f"posonly {names(ca.posonlyargs)} args {names(ca.args)} kwonly {names(ca.kwonlyargs)} vararg {ca.vararg!r} kwarg {ca.kwarg!r}",
-                    replay=dict(kind="sig"))
+            if only is None:
+                R.check(f"{base}.__init__/parameters-copied-in-place-without-annotations/{sig}", okn and okv,
+                        f"posonly {names(ca.posonlyargs)} args {names(ca.args)} kwonly {names(ca.kwonlyargs)} vararg {ca.vararg!r} kwarg {ca.kwarg!r}",
+                        replay=dict(kind="sig"))
+            # data model 3.3.3.6 / PEP 3135: zero-argument super() takes the FIRST POSITIONAL parameter
+            # (positional-only ones first) of the function as the instance; none: nothing to take
+            live = [x for x in list(a.posonlyargs) + list(a.args) if not (isinstance(x, Seg) and _pz(c, x.length))]
+            got_fp = v["inner"].fields.get("first_parameter")
+            if not live:
+                okfp = got_fp is None
+                want_fp = None
+            else:
+                from olvc import ops as _ops
+                first = live[0]
+                want_fp = (_ops.subst_j(first.items[0], first.jvar, z3.IntVal(0)) if isinstance(first, Seg) else first).arg
+                okfp = isinstance(got_fp, Hole) and TL.term_eq(c, tagstr(got_fp.tag), tagstr(want_fp.tag)) if isinstance(want_fp, Hole) else got_fp == want_fp
+                if isinstance(first, Seg) and not c.valid(sym.zint(first.length) > 0)[0]:
+                    okfp = None  # the first run may be empty on this path: not decided here
+            if only != "first-parameter":
+                pass
+            elif okfp is None:
+                R.undecided(f"{base}.__init__/namespace-told-the-first-positional-parameter/{sig}", "the first run of parameters may be empty on this path")
+            else:
+                R.check(f"{base}.__init__/namespace-told-the-first-positional-parameter/{sig}", bool(okfp), f"first_parameter={got_fp!r}, Python: {want_fp!r}",
+                        replay=dict(kind="src", src=_SUPER_SRC, expect="same-globals"))
         finally:
             sym.set_ctx(None)
+        if only is not None:
+            continue
         # --- evaluation order of the definition (Language Reference 8.7)
         DEC, DF = node.decorator_list[0], a.defaults[0]
         want = [("rep", DEC.length, DEC.jvar, False, [("ev", "outer", tagstr(DEC.items[0].tag))]),
@@ -400,6 +436,13 @@ def g_classdef(R, tier):
                     applied = [e for e in top if e[0] == "rep" and e[3] is True and e[4] and e[4][0][0] == "call"
                                and TL.term_eq(c, e[4][0][1], ("val", tagstr(DEC.items[0].tag)))]
                     rebound = bool(top) and top[-1][0] == "store" and top[-1][2] == "C"
+                    # Language Reference 8.8: the decorators receive the class object after its suite was executed
+                    # (the idiom: after the members of the body were installed), and nothing else is done to it before
+                    i_app = [i for i, e in enumerate(top) if any(e is a_ for a_ in applied)]
+                    i_inst = [i for i, e in enumerate(top) if e[0] == "loop" and any(x and x[0] == "setattr" for x in e[-1] if isinstance(x, tuple))]
+                    R.check(f"{base}[{meta}]/class-decorators-receive-the-finished-class/{sig}", len(i_inst) == 1 and len(i_app) == 1 and i_inst[0] < i_app[0] == len(top) - 2,
+                            f"members installed at step {i_inst}, decorators applied at step {i_app} of {len(top)}",
+                            replay=dict(kind="src", src=_CLASS_DECO_SRC, expect="same-globals"))
                     R.check(f"{base}[{meta}]/class-decorators-evaluated-and-applied/{sig}", ndec == 1 and len(applied) == 1 and rebound,
                             f"decorator expressions evaluated {ndec} times, applied bottom-up {len(applied)} times, class name rebound last: {rebound}",
                             replay=dict(kind="src", src=_CLASS_DECO_SRC, expect="same-globals"))
@@ -412,7 +455,9 @@ def g_classdef(R, tier):
 
 _CLASS_DECO_SRC = ("log = []\ndef e(n, v):\n    log.append(n)\n    return v\ndef tag(t):\n    def deco(c):\n        c.tags = getattr(c, 'tags', ()) + (t,)\n        log.append('apply ' + t)\n        return c\n    return deco\n"
                    "class B:\n    pass\n@e('d1', tag('one'))\n@e('d2', tag('two'))\n@tag('three')\nclass C(e('base', B)):\n    log.append('body')\n"
-                   "@tag('solo')\nclass D:\n    pass\nr = (C.tags, D.tags, log)\n")
+                   "@tag('solo')\nclass D:\n    pass\n"
+                   "def members(c):\n    log.append(sorted(k for k in vars(c) if not k.startswith('__')))\n    return c\n@members\nclass E:\n    x = 1\n    def f(self):\n        return 2\n"
+                   "r = (C.tags, D.tags, log)\n")
 
 
 def g_assign_statement(R, tier):
@@ -466,7 +511,10 @@ _ORDER_SRC = (
     "log = []\nclass O: pass\no = O()\nd = {}\ndef f(n, v):\n    log.append(n)\n    return v\n"
     "f('obj', o).x = f('val', 1)\nf('d', d)[f('k', 'k')] = f('v2', 2)\n"
     "f('o2', o).y = f('d2', d)[f('k2', 2)] = z = f('v3', 3)\n"
-    "d[f('k3', 3)] = f('v4', 4)\nlst = [0, 1, 2, 3]\nlst[f('lo', 1):f('hi', 3)] = f('seq', [9])\no.z = f('v5', 5)\n")
+    "d[f('k3', 3)] = f('v4', 4)\nlst = [0, 1, 2, 3]\nlst[f('lo', 1):f('hi', 3)] = f('seq', [9])\no.z = f('v5', 5)\n"
+    # bare names in the target are read AFTER the value ran
+    "idx = 0\ndef nxt():\n    global idx, cur\n    idx += 1\n    cur = O()\n    return idx * 10\ndata = [0, 0, 0]\ncur = o\nfirst = cur\n"
+    "data[idx] = nxt()\ncur.label = nxt()\nflags = (hasattr(first, 'label'), cur.label)\n")
 
 
 def _ren(x):
@@ -490,7 +538,8 @@ def replay_sig(rp):
     src = ("def f(a, b=1, /, c=2, *d, e, g=3, **h):\n    return (a, b, c, d, e, g, h)\n"
            "def k(*, x, y=5):\n    return (x, y)\ndef p(a, /):\n    return a\n"
            "def q(*, u='U', v, w='W', z):\n    return (u, v, w, z)\n"
-           "r = (f(1, e=4), f(1, 2, 3, 4, 5, e=6, z=7), k(x=1), p(9), q(v=1, z=2), q(u=0, v=1, w=2, z=3))\n"
+           "def t(target, factor=1, /, **kw):\n    return (target, factor, sorted(kw.items()))\n"
+           "r = (f(1, e=4), f(1, 2, 3, 4, 5, e=6, z=7), k(x=1), p(9), q(v=1, z=2), q(u=0, v=1, w=2, z=3), t('t', factor=3), t('t', 2, target='x'))\n"
            "errs = []\nfor call in (lambda: f(), lambda: f(1), lambda: f(a=1, e=2), lambda: k(1), lambda: p(a=1)):\n"
            "    [errs.append('ok')] if False else None\n")
     return RU.replay_source(src, "same-globals", names=["r"])
@@ -512,3 +561,14 @@ for _k in [k for k in _c03.GROUPS if k.startswith("kind:")]:
     GROUPS[f"unparser-keeps-the-order-of-the-tree/{_k[5:]}"] = _c03.GROUPS[_k]
 REPLAY.update({k: v for k, v in _c03.REPLAY.items() if k not in REPLAY})
 NO_FRAME_GROUPS = tuple(k for k in GROUPS if k.startswith("unparser-keeps-the-order-of-the-tree/"))  # (their frames are C03's)
+
+# "conditions, iterables ... exactly as many times as the original does": the loop idioms are
+# C05's groups (test once per iteration and never after a break; iterable once), required here too
+from suites import c05 as _c05
+GROUPS["loops:while-test-evaluated-as-often-as-python"] = _c05.GROUPS["while"]
+GROUPS["loops:for-iterable-evaluated-once"] = _c05.GROUPS["for"]
+REPLAY.update({k: v for k, v in _c05.REPLAY.items() if k not in REPLAY})
+NO_FRAME_GROUPS = NO_FRAME_GROUPS + ("loops:while-test-evaluated-as-often-as-python", "loops:for-iterable-evaluated-once")  # (their frames are C05's)
+
+# bounded stand-ins for undecided obligations (olvc/oblig.py::main_check)
+STANDINS = {"*": [dict(kind="src", src=_ORDER_SRC, expect="same-globals"), dict(kind="src", src=_CLASS_DECO_SRC, expect="same-globals"), dict(kind="sig")]}
